@@ -22,6 +22,7 @@ From PQ Require Import Base.Bytes Base.Varint Base.BitPack.
 From PQ Require Import Enc.DeltaBP Enc.DeltaBPProofs Enc.Rle Enc.RleProofs.
 From PQ Require Import Enc.Plain Enc.PlainProofs Enc.ByteArrayDelta Enc.ByteArrayDeltaProofs.
 From PQ Require Import Enc.GoDecBase Enc.GoDecRle Enc.GoDecRleProofs Enc.GoDecBitsProofs.
+From PQ Require Import Enc.GoDecPage Enc.GoDecPageProofs.
 From PQ Require Import Enc.GoDecDelta Enc.GoDecDeltaProofs Enc.DeltaBPFast Enc.DeltaBPFastProofs Enc.PlainFast Enc.PlainFastProofs.
 Import ListNotations.
 Open Scope N_scope.
@@ -479,3 +480,45 @@ Proof. exact go_boolean_pinned_unaligned_refuted. Qed.
 
 Print Assumptions C04_pinned_rle_int32_truncated_refuted.
 Print Assumptions C04_pinned_rle_boolean_unaligned_refuted.
+
+(** RLE_DICTIONARY data pages as the page reader builds them from the decoded
+    indexes and the num_values of the page header (dictionary.go,
+    newIndexedPage; Enc/GoDecPage.v).  The model is a function of the page data
+    and of num_values: nothing of a reused buffer can show through; the Go code
+    is compared with it on pages decoded into new and into dirty reused buffers
+    (harness/c04/page.go).
+
+    A page written by the library (all the indexes present): exactly the indexes. *)
+Theorem C04_go_indexed_page_roundtrip : forall src,
+  Forall (fun v => v < 2 ^ 32) src -> N.of_nat (length src) <= max_count ->
+  exists b, enc_dict_indexes src = Some b /\ go_indexed_page (length src) b = GOk src.
+Proof. exact go_indexed_page_roundtrip. Qed.
+
+(** any page data Go's index decoder accepts that holds at least num_values
+    indexes (more: the padding of a last bit-packed group): the first
+    num_values of them *)
+Theorem C04_go_indexed_page_conforming : forall n data ix,
+  go_decode_dict data = GOk ix -> (n <= length ix)%nat -> go_indexed_page n data = GOk (firstn n ix).
+Proof. exact go_indexed_page_conforming. Qed.
+
+(** page data holding FEWER indexes than num_values -- not a conforming page:
+    Encodings.md has the data hold all the values of the page; accepted by the
+    library, which reads the missing indexes as 0 *)
+Theorem C04_go_indexed_page_short_streams : forall n data ix,
+  go_decode_dict data = GOk ix -> (length ix <= n)%nat ->
+  go_indexed_page n data = GOk (ix ++ repeat 0 (n - length ix)).
+Proof. exact go_indexed_page_short. Qed.
+
+Theorem C04_go_indexed_page_length : forall n ix, length (indexed_page_indexes n ix) = n.
+Proof. exact indexed_page_length. Qed.
+
+(** bit width 2, one run-length run of three times the index 1, num_values 10 *)
+Example C04_ex_go_indexed_page_short :
+  go_decode_dict [2; 6; 1] = GOk [1; 1; 1]
+  /\ go_indexed_page 10 [2; 6; 1] = GOk [1; 1; 1; 0; 0; 0; 0; 0; 0; 0].
+Proof. split; vm_compute; reflexivity. Qed.
+
+Print Assumptions C04_go_indexed_page_roundtrip.
+Print Assumptions C04_go_indexed_page_conforming.
+Print Assumptions C04_go_indexed_page_short_streams.
+Print Assumptions C04_go_indexed_page_length.
